@@ -404,6 +404,11 @@ func (f *fx) enterLoop(li *loopInfo, edges []*edge) {
 		g := f.specBool(inv, env)
 		f.oblige("invariant-entry", fmt.Sprintf("loop%d/inv%s/entry", li.ord, clauseName(inv, i)), g, inv.Props, inv.Where, inv.Src)
 	}
+	for i, en := range spec.Entry {
+		env := f.envAt(f.cur)
+		g := f.specBool(en, env)
+		f.oblige("invariant-entry", fmt.Sprintf("loop%d/entry%s", li.ord, clauseName(en, i)), g, en.Props, en.Where, en.Src)
+	}
 	// havoc
 	keys, all := f.loopModKeys(li)
 	if all {
@@ -439,6 +444,11 @@ func (f *fx) enterLoop(li *loopInfo, edges []*edge) {
 		n := f.sc.fresh("phi_"+phi.Comment, f.e.sorts.sortOf(phi.Type()))
 		f.vals[phi] = termVal(n)
 		f.assumeTyped(f.cur, n, phi.Type())
+		if isRangeIndexPhi(phi) {
+			// hidden index of "for range" over a slice, array or string: starts at -1 and is only ever
+			// incremented (checked on the shape of the phi), so it is never below -1
+			f.sc.assert(T("Bool", "(>= %s (- 1))", n.S))
+		}
 	}
 	for _, inv := range spec.Invariants {
 		env := f.envAt(f.cur)
@@ -824,7 +834,8 @@ func (f *fx) exec(in ssa.Instruction, edges []*edge) {
 		vk, dk := f.mapKeys(mt)
 		k, v := f.term(x.Key), f.term(x.Value)
 		f.checkFrameMap(m, x.Pos())
-		va, da := f.get(f.cur, vk), f.get(f.cur, dk)
+		// name the old arrays: each update mentions them twice (exponential in a row of updates otherwise)
+		va, da := f.sc.define("mv", f.get(f.cur, vk)), f.sc.define("md", f.get(f.cur, dk))
 		f.set(f.cur, vk, sto(va, m, sto(sel(va, m), k, v)))
 		f.set(f.cur, dk, sto(da, m, sto(sel(da, m), k, tTrue)))
 	case *ssa.Range:
@@ -1252,4 +1263,22 @@ func (f *fx) next(x *ssa.Next) {
 	f.assumeTyped(f.cur, kv, tup.At(1).Type())
 	f.assumeTyped(f.cur, vv, tup.At(2).Type())
 	f.vals[x] = Val{Kind: vTuple, Tup: []Val{termVal(ok), termVal(kv), termVal(vv)}}
+}
+
+// isRangeIndexPhi recognises the index variable go/ssa introduces for range loops over slices, arrays and strings:
+// phi [-1, phi+1].
+func isRangeIndexPhi(phi *ssa.Phi) bool {
+	if phi.Comment != "rangeindex" || len(phi.Edges) != 2 {
+		return false
+	}
+	c, ok := phi.Edges[0].(*ssa.Const)
+	if !ok || c.Value == nil || c.Value.ExactString() != "-1" {
+		return false
+	}
+	b, ok := phi.Edges[1].(*ssa.BinOp)
+	if !ok || b.Op != token.ADD || b.X != phi {
+		return false
+	}
+	one, ok := b.Y.(*ssa.Const)
+	return ok && one.Value != nil && one.Value.ExactString() == "1"
 }
